@@ -28,8 +28,12 @@ PROPS["C05"] = {
         H("libfs", "c05_uspace_witness", witness=True),
         H("libfs", "c05_range_uspace_t", tier="thorough", bounds="file <= 6 bytes, 2 faults, unwind 8",
           covers=["ok after a short read"], timeout=3600, mem_gb=24),
-        H("libfs", "c05_bytes_uspace_t", tier="thorough", bounds="file <= 6 bytes, 2 faults, 2 EINTR, unwind 8",
-          covers=["ok after a short read or write"], timeout=3600, mem_gb=24),
+        H("libfs", "c05_bytes_uspace_short_t", tier="thorough", bounds="file <= 5 bytes, short reads/writes, unwind 8",
+          covers=["ok after a short read or write"], timeout=3600, mem_gb=20),
+        H("libfs", "c05_bytes_uspace_eintr_t", tier="thorough", bounds="file <= 3 bytes, 2 EINTR, unwind 8",
+          covers=["ok after EINTR"], timeout=3600, mem_gb=20),
+        H("libfs", "c05_bytes_uspace_fault_t", tier="thorough", bounds="file <= 3 bytes, 1 injected fault, unwind 8",
+          timeout=3600, mem_gb=20),
     ],
 }
 
@@ -285,3 +289,5 @@ for _p in ("C02", "C08", "C17"):
     PROPS[_p]["e2"] += [E("tree_walker_two_sources", "p_walker", "lemma_tree_walker_two_sources")]
 for _p in ("C04", "C13", "C14", "C12"):
     PROPS[_p]["e2"] += [E("tree_walker_two_sources", "p_walker", "lemma_tree_walker_two_sources", tier="thorough")]
+PROPS["C06"]["e2"] += [E("uspace_loops", "p_libfs", "lemma_uspace_loops")]
+PROPS["C11"]["e2"] += [E("copy_bytes_step", "p_copy", "lemma_copy_bytes")]
